@@ -14,6 +14,7 @@
 package evm
 
 import (
+	"errors"
 	"runtime"
 	"sync"
 	"sync/atomic"
@@ -148,6 +149,8 @@ func initTxQueue(txs gtypes.Txs, apptxQ [][]appTx, exit *int32) {
 	}
 }
 
+var errEmptyTx = errors.New("empty transaction")
+
 func txQueue(tptx gtypes.Tx, apptxQ [][]appTx, i, j int) error {
 	cur := &apptxQ[i][j]
 	cur.rawbytes = tptx
@@ -159,6 +162,15 @@ func txQueue(tptx gtypes.Tx, apptxQ [][]appTx, i, j int) error {
 		if err := rlp.DecodeBytes(tptx, cur.tx); err != nil {
 			cur.err = err
 		}
+	}
+	if len(tptx) == 0 {
+		// nothing to decode: an empty transaction is invalid (it used to reach the
+		// executor as a nil *Transaction)
+		cur.err = errEmptyTx
+	}
+	if j == 0 {
+		// publish the original bytes before the status that makes this entry visible
+		apptxQ[i][j].oribys = tptx
 	}
 
 	atomic.StoreInt32(&cur.status, appTxStatusInit)
@@ -221,6 +233,7 @@ func tryValidate(signer etypes.Signer, tx *appTx) error {
 
 	_, err := etypes.Sender(signer, tx.tx)
 	if err != nil {
+		tx.err = err // the error must be visible before the status that announces it
 		atomic.StoreInt32(&tx.status, appTxStatusFailed)
 		tx.err = err
 		return err
